@@ -14,6 +14,7 @@
    Section variables: the generator is an oracle, its decomposition is measured on every
    run by harness/props/c16.py, not proved. *)
 From Asimap Require Import Base.Res.
+From Asimap Require Export Base.Bytes.   (* uint_bytes is shared with the generated code *)
 From Coq Require Import Decimal DecimalN NArith.
 Open Scope Z_scope.
 
@@ -59,22 +60,7 @@ Definition partial (p : option (Z * Z)) (l : list Z) : list Z :=
   | Some (o, n) => pyslice o (o + n) l
   end.
 
-(* str(n).encode() for n >= 0 *)
-Fixpoint uint_bytes (d : Decimal.uint) : list Z :=
-  match d with
-  | Nil => []
-  | D0 d => 48 :: uint_bytes d
-  | D1 d => 49 :: uint_bytes d
-  | D2 d => 50 :: uint_bytes d
-  | D3 d => 51 :: uint_bytes d
-  | D4 d => 52 :: uint_bytes d
-  | D5 d => 53 :: uint_bytes d
-  | D6 d => 54 :: uint_bytes d
-  | D7 d => 55 :: uint_bytes d
-  | D8 d => 56 :: uint_bytes d
-  | D9 d => 57 :: uint_bytes d
-  end.
-
+(* str(n).encode() for n >= 0: uint_bytes is in Base/Bytes.v (shared with the generated code) *)
 Definition dec (n : N) : list Z := uint_bytes (N.to_uint n).
 
 Definition blen (l : list Z) : N := N.of_nat (List.length l).
